@@ -101,6 +101,11 @@ LPartitioned(v, n) ==
 (* chunked_aux_ : array_ref.hpp:1441-1444 *)
 LChunked(v, c) == LPartitioned(v, LSize(v.lay) \div c)
 
+(* layout_t::halve (layout.hpp:975-983): take(size/2) as the sub-layout, stride nelems/2 *)
+LHalved(v) ==
+  LET d == v.lay[1] IN
+  LV(v.base, <<Dm(d.n \div 2, 0, d.n)>> \o [v.lay EXCEPT ![1].n = d.s * (LSize(v.lay) \div 2)])
+
 (* is_flattable / flatted : array_ref.hpp:1351-1363 *)
 LFlattable(v) == Len(v.lay) >= 2 /\ (LSize(v.lay) <= 1 \/ v.lay[1].s = v.lay[2].n)
 LFlatted(v) ==
@@ -133,6 +138,9 @@ LApply(v, o, q) ==
     [] o.op = "partitioned" -> LPartitioned(v, o.args[1])
     [] o.op = "chunked"     -> LChunked(v, o.args[1])
     [] o.op = "flatted"     -> LFlatted(v)
+    [] o.op = "halved"      -> LHalved(v)
+    [] o.op = "sliced3"     -> LStrided(LSliced(v, o.args[1], o.args[2], q), o.args[3])
+    [] o.op = "tilde"       -> LTransposed(v)
     [] o.op = "broadcast"   -> LBroadcastAt(v, o.args[1])
     [] o.op = "reindexed"   -> LReindexed(v, o.args)
     [] o.op = "blocked"     -> LBlocked(v, o.args[1], o.args[2], q)
